@@ -342,7 +342,7 @@ func runCase(b *rt.Built, dc *docs, s *m.Service, meth *m.Method, c *caseRec) st
 	hc.Stub = harness.StubSpec{HasResult: meth.Result != nil, Result: c.Result, View: "default"}
 	obs, err := b.H.Do(hc)
 	if err != nil {
-		return "INCONCLUSIVE harness: " + err.Error()
+		return "INCONCLUSIVE: harness: " + err.Error()
 	}
 	if obs.Err != "" {
 		if strings.Contains(obs.Err, "conversion") && c.Kind != "valid" {
